@@ -378,6 +378,8 @@ def _pe_class(ctx, env, cls, moist, with_time, stats, rep=0, ci=0):
   ctx.dist[f'{cls}:tref={tref}'] += 1
   pj = _jsonable_problem(prob)
   kinds = ['wide'] * 3 + ['moderate'] * 2 if ctx.quick else ['wide'] * 6 + ['moderate'] * 3
+  if ctx.quick and rep > 0:
+    kinds = ['wide', 'wide', 'moderate']
   bases = [('default', du)] + [(k, _rand_base(rng, du, k)) for k in kinds]
   integrators = list(R.INTEGRATORS)
   if ctx.quick and rep > 0:
